@@ -119,8 +119,12 @@ impl Sharder {
 
     /// Assuming the node is a replica for a given token, returns the shard that owns this token.
     pub fn shard_of(&self, token: Token) -> Shard {
-        let mut biased_token = (token.value as u64).wrapping_add(1u64 << 63);
-        biased_token <<= self.msb_ignore;
+        let biased_token = (token.value as u64).wrapping_add(1u64 << 63);
+        // `msb_ignore` comes from the node (SCYLLA_SHARDING_IGNORE_MSB) and is not validated:
+        // ignoring 64 bits or more leaves nothing of the token.
+        let biased_token = biased_token
+            .checked_shl(u32::from(self.msb_ignore))
+            .unwrap_or(0);
         (((biased_token as u128) * (self.nr_shards.get() as u128)) >> 64) as Shard
     }
 
